@@ -613,6 +613,22 @@ def c_facts(ctext):
     f['final'] = re.sub(r'\s+', ' ', body[body.index('// finalization'):body.index('return h1;')])
     f['seed0'] = re.search(r'uint32_t seed = 0;', ctext) is not None
     f['block_type'] = re.search(r'const int64_t \* blocks', body) is not None
+    # scoping of the k1 / k2 accumulators: the tail switch xors into them, so they must still be 0 when it starts
+    f['tail_zero'] = {}
+    lm = re.search(r'for\s*\(\s*i\s*=\s*0\s*;\s*i\s*<\s*nblocks\s*;\s*i\+\+\s*\)\s*\{', body)
+    sw = body.find('switch(len & 15)')
+    if lm and sw > 0:
+        depth, k = 1, lm.end()
+        while k < len(body) and depth:
+            depth += {'{': 1, '}': -1}.get(body[k], 0)
+            k += 1
+        loop_txt, pre, between = body[lm.end():k - 1], body[:lm.start()], body[k:sw]
+        for var in ('k1', 'k2'):
+            outer0 = re.search(r'\bint64_t\s+%s\s*=\s*0\s*;' % var, pre) is not None
+            shadowed = re.search(r'\bint64_t\s+%s\s*=' % var, loop_txt) is not None
+            written = re.search(r'(?<![\w.])%s\s*(?:[-+*^|&]|<<|>>)?=(?!=)' % var, loop_txt) is not None
+            reset = re.search(r'(?<![\w.])%s\s*=\s*0\s*;' % var, between) is not None
+            f['tail_zero'][var] = (outer0 and (shadowed or not written)) or reset
     return f
 
 
@@ -681,8 +697,27 @@ def murmur_pair(chk):
             bad.append((L, sorted(got ^ want)))
     chk.judge(not bad, 'C07.murmur', (MURMUR, '_murmur3', f.lineno), 'Python tail loops touch exactly the C cases (byte, shift) for every tail length 0..15', 'tail handling differs for tail lengths %s' % bad[:3])
     bt = pm.func('body_and_tail')
-    # body_and_tail is interpreted for every length 0..48: what it returns is (blocks, tail bytes, length) with the struct formats and offset below,
-    # however the function spells the arithmetic
+    bt_bad, signed_py = body_tail_facts(pm, bt)
+    signed_py = signed_py and not unsigned
+    signed_c = cf['tail_type'] == ('int8_t', 'int8_t') and cf['data_type'] == ('int8_t', 'int8_t')
+    chk.judge(signed_py and signed_c, 'C07.murmur', loc, 'tail bytes are signed on both sides (int8_t* in C, struct format b and no masking in Python)',
+              'tail byte signedness differs: C tail pointer %s / data pointer %s, Python %s: keys with a byte >= 0x80 in the last len %% 16 bytes hash differently'
+              % (cf['tail_type'], cf['data_type'], 'signed' if signed_py else 'masks the byte (%s)' % unsigned))
+    chk.judge(not bt_bad and cf['block_type'] and cf['nblocks'], 'C07.murmur', (MURMUR, 'body_and_tail', bt.lineno),
+              'blocks are little-endian signed 64-bit pairs, 16 bytes each, the tail is the last len %% 16 bytes, on both sides (body_and_tail interpreted for lengths 0..48)',
+              'block splitting differs: %s' % (bt_bad[:2],))
+    fin = [src(st) for st in f.body if isinstance(st, (ast.AugAssign, ast.Assign, ast.Return))]
+    tailseq = fin[fin.index('h1 ^= total_len'):] if 'h1 ^= total_len' in fin else []
+    want = ['h1 ^= total_len', 'h2 ^= total_len', 'h1 += h2', 'h2 += h1', 'h1 = fmix(h1)', 'h2 = fmix(h2)', 'h1 += h2', 'return truncate_int64(h1)']
+    cfin = 'h1 ^= len; h2 ^= len; h1 += h2; h2 += h1; h1 = fmix(h1); h2 = fmix(h2); h1 += h2;' in cf['final']
+    chk.judge(tailseq == want and cfin, 'C07.murmur', loc, 'finalisation sequence equal; Python wraps to signed 64 bits', 'finalisation differs: %s' % tailseq)
+    chk.judge(cf['seed0'] and src(f.body[0]) == 'h1 = h2 = 0', 'C07.murmur', loc, 'seed 0 on both sides', 'seed differs')
+    chk.require('C07.murmur', 10)
+
+
+def body_tail_facts(pm, bt):
+    """body_and_tail interpreted for every length 0..48 -> (list of lengths whose result is not (blocks, tail bytes, length) with the
+    reference struct formats / offset, whether the tail format is the signed `b`)"""
     from ..absint import Interp as _Interp, Sym as _Sym
 
     def _bt_effect(interp, node, c, args, kwargs, env):
@@ -713,18 +748,4 @@ def murmur_pair(chk):
                 signed_py = False
             if o_.kind != 'ok' or not ok_body or not ok_tail or v_[2] != L:
                 bt_bad.append((L, v_))
-    signed_py = signed_py and not unsigned
-    signed_c = cf['tail_type'] == ('int8_t', 'int8_t') and cf['data_type'] == ('int8_t', 'int8_t')
-    chk.judge(signed_py and signed_c, 'C07.murmur', loc, 'tail bytes are signed on both sides (int8_t* in C, struct format b and no masking in Python)',
-              'tail byte signedness differs: C tail pointer %s / data pointer %s, Python %s: keys with a byte >= 0x80 in the last len %% 16 bytes hash differently'
-              % (cf['tail_type'], cf['data_type'], 'signed' if signed_py else 'masks the byte (%s)' % unsigned))
-    chk.judge(not bt_bad and cf['block_type'] and cf['nblocks'], 'C07.murmur', (MURMUR, 'body_and_tail', bt.lineno),
-              'blocks are little-endian signed 64-bit pairs, 16 bytes each, the tail is the last len %% 16 bytes, on both sides (body_and_tail interpreted for lengths 0..48)',
-              'block splitting differs: %s' % (bt_bad[:2],))
-    fin = [src(st) for st in f.body if isinstance(st, (ast.AugAssign, ast.Assign, ast.Return))]
-    tailseq = fin[fin.index('h1 ^= total_len'):] if 'h1 ^= total_len' in fin else []
-    want = ['h1 ^= total_len', 'h2 ^= total_len', 'h1 += h2', 'h2 += h1', 'h1 = fmix(h1)', 'h2 = fmix(h2)', 'h1 += h2', 'return truncate_int64(h1)']
-    cfin = 'h1 ^= len; h2 ^= len; h1 += h2; h2 += h1; h1 = fmix(h1); h2 = fmix(h2); h1 += h2;' in cf['final']
-    chk.judge(tailseq == want and cfin, 'C07.murmur', loc, 'finalisation sequence equal; Python wraps to signed 64 bits', 'finalisation differs: %s' % tailseq)
-    chk.judge(cf['seed0'] and src(f.body[0]) == 'h1 = h2 = 0', 'C07.murmur', loc, 'seed 0 on both sides', 'seed differs')
-    chk.require('C07.murmur', 10)
+    return bt_bad, signed_py
